@@ -70,7 +70,7 @@ def _slice(tree, i):
 def _run(node, tier, seed):
     def run(ctx):
         comp = component_of(node)
-        feats = node.features() & {"zero_length", "mask_concrete_false"}
+        feats = node.features() & {"zero_length", "mask_concrete_false", "switch_concrete_idx"}
         prog = Prog(node, n_cont=2)
         key = base_key(seed)
         alph = grammar.rotate(node.arg_alphabet(), seed)[:2]
